@@ -165,6 +165,12 @@ func c13Run(b *core.B) {
 		for j := range progs {
 			progs[j] = genProgram(r, 2, func(g *pGen) { g.hashBias = true; g.partials = true })
 			texts[j] = progs[j].canonical()
+			if j == m-1 && i%4 == 1 {
+				// a template with a syntax error: every execution route must
+				// report the same error, however often it is tried
+				progs[j] = &pProg{features: map[string]bool{"syntax-error": true}}
+				texts[j] = "<p>shown</p><% if ( %>never" + texts[j]
+			}
 			if j == 0 && i%3 == 0 {
 				// re-entrant execution of one template
 				progs[j] = &pProg{features: map[string]bool{"self-recursive-partial": true, "partial": true}}
